@@ -474,7 +474,7 @@ func (d *V1) put(cmd *Cmd) (o Outcome) {
 }
 
 func (d *V1) get(cmd *Cmd) (o Outcome) {
-	in := &dynamodb.GetItemInput{TableName: aws.String(cmd.T), Key: itemToV1(cmd.Key)}
+	in := &dynamodb.GetItemInput{TableName: aws.String(cmd.T), Key: itemToV1(fullKey(cmd))}
 	d.keepIn(cmd.ID, "Key", in.Key)
 	out, err := d.cl.GetItem(in)
 	d.classify(err, &o)
@@ -487,7 +487,7 @@ func (d *V1) get(cmd *Cmd) (o Outcome) {
 
 func (d *V1) del(cmd *Cmd) (o Outcome) {
 	p := d.parts(cmd, "")
-	in := &dynamodb.DeleteItemInput{TableName: aws.String(cmd.T), Key: itemToV1(cmd.Key), ConditionExpression: p.cond,
+	in := &dynamodb.DeleteItemInput{TableName: aws.String(cmd.T), Key: itemToV1(fullKey(cmd)), ConditionExpression: p.cond,
 		ExpressionAttributeNames: p.names, ExpressionAttributeValues: p.values, ReturnValues: aws.String("ALL_OLD")}
 	d.keepIn(cmd.ID, "Key", in.Key)
 	d.keepIn(cmd.ID, "Values", p.values)
@@ -502,7 +502,7 @@ func (d *V1) del(cmd *Cmd) (o Outcome) {
 
 func (d *V1) update(cmd *Cmd) (o Outcome) {
 	p := d.parts(cmd, "")
-	in := &dynamodb.UpdateItemInput{TableName: aws.String(cmd.T), Key: itemToV1(cmd.Key), UpdateExpression: p.upd, ConditionExpression: p.cond,
+	in := &dynamodb.UpdateItemInput{TableName: aws.String(cmd.T), Key: itemToV1(fullKey(cmd)), UpdateExpression: p.upd, ConditionExpression: p.cond,
 		ExpressionAttributeNames: p.names, ExpressionAttributeValues: p.values, ReturnValues: aws.String("ALL_NEW")}
 	d.keepIn(cmd.ID, "Key", in.Key)
 	d.keepIn(cmd.ID, "Values", p.values)
@@ -648,12 +648,12 @@ func (d *V1) bad(cmd *Cmd) (o Outcome) {
 		_, err = d.cl.PutItem(&dynamodb.PutItemInput{TableName: aws.String(cmd.T), Item: itemToV1(cmd.Item), ConditionExpression: strp(cmd.RawExpr),
 			ExpressionAttributeNames: names, ExpressionAttributeValues: vals})
 	case "Get":
-		_, err = d.cl.GetItem(&dynamodb.GetItemInput{TableName: aws.String(cmd.T), Key: itemToV1(cmd.Key), ExpressionAttributeNames: names})
+		_, err = d.cl.GetItem(&dynamodb.GetItemInput{TableName: aws.String(cmd.T), Key: itemToV1(fullKey(cmd)), ExpressionAttributeNames: names})
 	case "Delete":
-		_, err = d.cl.DeleteItem(&dynamodb.DeleteItemInput{TableName: aws.String(cmd.T), Key: itemToV1(cmd.Key), ConditionExpression: strp(cmd.RawExpr),
+		_, err = d.cl.DeleteItem(&dynamodb.DeleteItemInput{TableName: aws.String(cmd.T), Key: itemToV1(fullKey(cmd)), ConditionExpression: strp(cmd.RawExpr),
 			ExpressionAttributeNames: names, ExpressionAttributeValues: vals})
 	case "Update":
-		in := &dynamodb.UpdateItemInput{TableName: aws.String(cmd.T), Key: itemToV1(cmd.Key), UpdateExpression: aws.String(cmd.RawExpr),
+		in := &dynamodb.UpdateItemInput{TableName: aws.String(cmd.T), Key: itemToV1(fullKey(cmd)), UpdateExpression: aws.String(cmd.RawExpr),
 			ExpressionAttributeNames: names, ExpressionAttributeValues: vals}
 		if cmd.Cond != nil {
 			b := NewBinder()
